@@ -197,13 +197,7 @@ Lemma remember_history_rnd e s t nick id s' :
   remember_history e s t nick id = Ok s' -> rnd_only s s'.
 Proof.
   unfold remember_history. intros H.
-  destruct (existsb (String.eqb t) (hist_tables e)).
-  - destruct (match nick with Some n => negb (nick_maps_to (hist (rnd s)) n t) | None => false end);
-      [discriminate|]. injection H as <-. eexists. reflexivity.
-  - destruct nick as [n|].
-    + destruct (existsb (String.eqb n) (hist_tables e)); [discriminate|].
-      injection H as <-. apply rnd_only_refl.
-    + injection H as <-. apply rnd_only_refl.
+  destruct (existsb (String.eqb t) (hist_tables e)); injection H as <-; [eexists; reflexivity|apply rnd_only_refl].
 Qed.
 
 Lemma random_reference_rnd e to s s' v :
